@@ -12,6 +12,7 @@ DECIDED += "; R5 exhaustive scans: take_due and Topology::tick_by"
 DECIDED += "; R6 = C05-R7 (link deliveries are timed on a tokio clock that must not run ahead of virtual time; recorded finding D16)"
 DECIDED += '; R2 also: per-link overrides (top::Link::config) are written only through Link::latency / Link::message_loss; R5 also for_pairs'
 DECIDED += '; R1 also: the width of the latency window is computed with a saturating subtraction (a maximum below the inherited minimum is a reachable configuration)'
+DECIDED += '; R2 also: a setter stores its argument (no normalisation against the inherited minimum)'
 ASSUMPTIONS = ["std::cmp::min / Duration arithmetic behave as documented"]
 
 LAT = "turmoil::config::Latency"
